@@ -6,7 +6,7 @@ package main
 //
 //	op:     reflect <HEX of FileDescriptorSet (generated files only)> <descriptor summary tokens…>
 //	result: nolink
-//	        | set=<ok SHAPE | err | panic | collide:<ok|err|panic>> cache=[ <splitName>:<ok|err|panic> … ]
+//	        | set=<ok SHAPE | err | panic | collide> cache=[ <splitName>:<ok|err|panic> … ]
 //
 // ORACLE (the property as stated): SchemaSetFromFiles / SchemaCache.Schema / Reflector.NewRoot
 // return a value or an error — never panic, hang or overflow the stack; on success every
@@ -44,7 +44,12 @@ func init() {
 
 func genReflectOp(h *vh.H, i int) string {
 	adv := i%5 != 0 // every fifth set is a fully valid one
-	fds := genFileSet(h, adv)
+	var fds *descriptorpb.FileDescriptorSet
+	if w := reflectWitnesses(); i < len(w) {
+		fds = w[i] // the recorded witnesses run first in every shard
+	} else {
+		fds = genFileSet(h, adv)
+	}
 	rt, b, err := wireRoundTrip(fds)
 	if err != nil {
 		return ""
@@ -105,6 +110,18 @@ func fail(h *vh.H, sig, op, detail string) {
 			sig = "name-collision:inconsistent"
 		}
 		detail = "[colliding schema names] " + detail
+	} else {
+		// symptoms of one recorded root cause share a signature per symptom kind
+		kind := strings.SplitN(sig, ":", 2)[0] // panic | codec-error | kind-mismatch | …
+		switch {
+		case strings.Contains(sig, "google.protobuf.Struct"):
+			sig, detail = "struct-as-map:"+kind, "["+sig+"] "+detail
+		case strings.Contains(sig, "-google.protobuf.Duration:") && strings.HasPrefix(sig, "panic:codec:decode:"):
+			sig, detail = "duration-as-string:panic:decode", "["+sig+"] "+detail
+		case strings.HasPrefix(sig, "codec-error:encode:list-") && strings.HasSuffix(sig, ".Any"),
+			strings.HasPrefix(sig, "codec-error:encode:map-") && strings.HasSuffix(sig, ".Any"):
+			sig, detail = "any-in-collection:codec-error:encode", "["+sig+"] "+detail
+		}
 	}
 	h.Fail(sig, op, detail)
 }
@@ -232,7 +249,8 @@ func reflectOnce(h *vh.H, op string, fds *descriptorpb.FileDescriptorSet) string
 	}
 	if collide {
 		// which of two equally named descriptors wins depends on RangeFiles order: compare classes only
-		setRes = "collide:" + strings.SplitN(setRes, " ", 2)[0]
+		_ = setRes
+		setRes = "collide"
 	}
 
 	// ---- 2. SchemaCache + Reflector + codec, per message
@@ -259,7 +277,7 @@ func reflectOnce(h *vh.H, op string, fds *descriptorpb.FileDescriptorSet) string
 			class = "nil"
 		}
 		h.Count("reflect.cache." + class)
-		cres = append(cres, sn+":"+class)
+		cres = append(cres, vh.Hex([]byte(sn))+":"+class)
 		if class == "ok" {
 			checkRoot(h, op, "cache", root, idx, map[string]bool{})
 		}
